@@ -15,12 +15,16 @@ let streams : (string * stream) list = [
   ("C08", { gen = C08.gen; check = C08.check; search = C08.search; describe = C08.describe; tags = C08.tags; strict = false });
   ("C14", { gen = C14.gen; check = C14.check; search = C14.search; describe = C14.describe; tags = C14.tags; strict = true });
   ("C16", { gen = C16.gen; check = C16.check; search = C16.search; describe = C16.describe; tags = C16.tags; strict = false });
+  ("C15", { gen = C15.gen; check = C15.check; search = C15.search; describe = C15.describe; tags = C15.tags; strict = false });
   ("C09", { gen = C09.gen; check = C09.check; search = C09.search; describe = C09.describe; tags = C09.tags; strict = false });
   ("C10", { gen = C10.gen; check = C10.check; search = C10.search; describe = C10.describe; tags = C10.tags; strict = false });
   ("C11", { gen = C11.gen; check = C11.check; search = C11.search; describe = C11.describe; tags = (fun _ _ -> []); strict = false });
   ("C01", { gen = C01.gen; check = C01.check; search = C01.search; describe = C01.describe; tags = Evalcommon.tags; strict = false });
   ("C02", { gen = C02.gen; check = C02.check; search = C02.search; describe = C02.describe; tags = Evalcommon.tags; strict = false });
 ]
+
+let oneline (s : string) : string =
+  String.concat "\\n" (String.split_on_char '\n' (String.concat "\\t" (String.split_on_char '\t' s)))
 
 let bump tbl k = Hashtbl.replace tbl k (1 + (try Hashtbl.find tbl k with Not_found -> 0))
 
@@ -78,8 +82,8 @@ let () =
                  end;
                  match v with
                  | `Ok -> ()
-                 | `Mismatch d -> incr fails; Printf.printf "FAIL\tmismatch\t%s\t%s\t%s\n" cs rs d
-                 | `Property d -> incr fails; Printf.printf "FAIL\tproperty\t%s\t%s\t%s\n" cs rs d)
+                 | `Mismatch d -> incr fails; Printf.printf "FAIL\tmismatch\t%s\t%s\t%s\n" cs rs (oneline d)
+                 | `Property d -> incr fails; Printf.printf "FAIL\tproperty\t%s\t%s\t%s\n" cs rs (oneline d))
             with e ->
               incr fails;
               Printf.printf "FAIL\tmismatch\t%s\t%s\tdriver-exception %s\n" cs rs (Printexc.to_string e))
